@@ -35,12 +35,36 @@ def run(ctx):
     # the asynchronous interface: Pending is only ever answered with a wake-up armed (else the next delivery's byte wakes nobody)
     if ctx.harness(['p_nested_close']):
         L.close_sweep(ctx, L.C09_POLL_KINDS, configs=L.STALE_CONFIGS, key='instruction_poll_sweep')
+    full_pipe_probe(ctx)
+    # the real adapters: parked with Pending, a later delivery must fire the waker (tokio, async-std; also behind a stale byte) / make the mio Poll readable
+    import c11
+    c11.async_probe(ctx, only=('S1', 'S5', 'M1', 'M3', 'M4'))
     ctx.coverage['rule_instruction_sweep'] = ('one more delivery (real handler, sigqueue) at every instruction boundary of pending() / wait() / forever().next(), '
                                               'SignalOnly and WithRawSiginfo, 23 configurations of earlier deliveries incl. bursts longer than the buffer; fork per boundary')
     ctx.coverage['rule'] = ('scenarios {wait | Forever::next | poll_signal | pending + several live batches} x {1-2 deliveries of 1-2 signals, add_signal from another thread, close}: every split point of each activity '
                             'against the others (the delivery between the consumer\'s drain and its scan, between store and wake, ...), random 2-preemption and random run-length schedules; monitors on the '
                             'real traces: consumer blocked on the self-pipe (scheduler deadlock report: nothing readable) while a slot is set, its handlers are past their wake and no handed-out batch is open; '
                             'parked after Pending with a set slot and an empty pipe; every stored delivery reported afterwards (final drain included)')
+
+
+def full_pipe_probe(ctx, n=1500):
+    """an instance nobody reads (its self-pipe fills up completely) next to one with a consumer in forever(): every one
+    of n deliveries must reach the consumer (harness/src/bin/p_c09_full.rs)"""
+    if not ctx.harness(['p_c09_full']):
+        return
+    rc, out, _ = common.sh([common.bin_path('p_c09_full'), str(n)], timeout=200)
+    row = [l.split() for l in out.split('\n') if l.startswith('F ')]
+    ctx.evaluations += n
+    res = row[0][1:] if row else ['no-output', str(rc)]
+    if res[0] in ('lost', 'stuck'):
+        what = ('delivery %s of SIGUSR1 was not handed to the consumer blocked in forever() within 3 s' % res[1] if res[0] == 'lost' else
+                'the raise of delivery %s did not return: the handler is stuck' % res[1])
+        ctx.violation({'monitor': 'full-pipe', 'kind': res[0]},
+                      'two instances watch SIGUSR1, the first is never read (its self-pipe is full after a few hundred deliveries): ' + what,
+                      {'full_pipe': True, 'n': n, 'result': res})
+    else:
+        ctx.correspondence('full self-pipe probe: %d deliveries with an undrained instance registered first all reach the other instance\'s consumer' % n, res[0] == 'ok', res)
+    ctx.coverage['full_pipe_probe'] = {'deliveries': n, 'result': ' '.join(res)}
 
 
 def replay(ctx, path):
@@ -50,6 +74,17 @@ def replay(ctx, path):
         return L.close_replay(ctx, case['case'], L.C09_POLL_KINDS)
     if case.get('case', {}).get('instr_sweep'):
         return L.instr_replay(ctx, case['case'], L.C09_KINDS)
+    if case.get('case', {}).get('adapter'):
+        import c11
+        return c11.adapter_replay(ctx, case['case'])
+    if case.get('case', {}).get('full_pipe'):
+        ctx.harness(['p_c09_full'])
+        rc, out, _ = common.sh([common.bin_path('p_c09_full'), str(case['case']['n'])], timeout=200)
+        print(out)
+        bad = any(l.startswith('F lost') or l.startswith('F stuck') for l in out.split('\n'))
+        if bad:
+            print('REPRODUCED: a delivery did not reach the consumer while another instance\'s pipe was full')
+        return 1 if bad else 0
     if not sc:
         print('replay file names no concrete input:', json.dumps(case.get('broken'), indent=1)[:2000])
         return 1
